@@ -353,6 +353,7 @@ func (C15) runOrder(p *Plan, seed int, r *simkit.Run) (map[string]string, bool, 
 	defer func() {
 		if chains != nil {
 			chains["!entries"] = strings.Join(ents, "\n")
+			r.Sig(chains["!entries"])
 		}
 	}()
 	if b, err := c.L.SnapshotBytes(); err == nil {
